@@ -85,7 +85,11 @@ fn value_repr(v: &Value) -> J {
         Value::Quantity(q) => {
             let p = numbat::verif::quantity_parts(q);
             json!({"k": "q", "bits": format!("{:016x}", p.value.to_bits()), "num": format!("{:e}", p.value),
-                   "unit": p.unit.iter().map(|f| json!([f.0, f.2, f.3, f.4.to_string(), f.5.to_string()])).collect::<Vec<_>>()})
+                   "unit": p.unit.iter().map(|f| json!([f.0, f.2, f.3, f.4.to_string(), f.5.to_string()])).collect::<Vec<_>>(),
+                   // the same quantity over base units (used only where the echo re-associates a product: the unit of the
+                   // result may then be another one of the same dimension)
+                   "si": format!("{:e}", p.value * p.base_factor),
+                   "siunit": p.base_unit.iter().map(|f| json!([f.0, f.2, f.3, f.4.to_string(), f.5.to_string()])).collect::<Vec<_>>()})
         }
         Value::Boolean(b) => json!({"k": "b", "v": b}),
         Value::String(s) => json!({"k": "s", "v": s.to_string()}),
